@@ -47,6 +47,8 @@ type world struct {
 	step                   int
 	dead                   bool // a handler panicked or the process "exited"
 	rejectedReconf         bool // a configuration update was rejected (and reverted) in this incarnation
+	revertFailedInc        bool // ... and the revert failed too: the configuration in effect is unknown (F17)
+	failedReqInc           bool // a lifecycle request failed in this incarnation (F6: its half-made changes stay pending)
 	reconfiguredInc        bool // an accepted, non-identical reconfiguration happened in this incarnation
 	cfgChangedSinceCoexist bool // an accepted reconfiguration changed the configuration (C11 feasibility memory is void)
 	agt                    *agent.Agent
@@ -247,13 +249,18 @@ func (w *world) applyReply(r *reply) {
 	}
 	if r.adjust != nil && r.target != "" {
 		if c, ok := w.rt.ctrs[r.target]; ok && r.adjust.Linux != nil {
+			c.noteTold()
 			c.t.apply(r.adjust.Linux.Resources)
 			c.rv.apply(r.adjust.Linux.Resources)
 		}
 	}
+	if r.err != nil && r.kind != "reconfigure" {
+		w.failedReqInc = true
+	}
 	apply := func(us []*nri.ContainerUpdate) {
 		for _, u := range us {
 			if c, ok := w.rt.ctrs[u.ContainerId]; ok && u.Linux != nil {
+				c.noteTold()
 				c.t.apply(u.Linux.Resources)
 				c.rv.apply(u.Linux.Resources)
 				c.t.staleUntilNextUpdate = false
@@ -471,6 +478,7 @@ func (w *world) doOp(op *Op) *reply {
 			w.rejectedReconf = true
 			rep.revertFailed = sim.LogSeen(markRevertFailed)
 			if rep.revertFailed {
+				w.revertFailedInc = true
 				w.res.Probe("revert-of-rejected-configuration-failed")
 			}
 		}
@@ -488,6 +496,11 @@ func (w *world) doOp(op *Op) *reply {
 		w.res.Fault("restart.clean")
 		w.rejectedReconf = false
 		w.reconfiguredInc = false
+		w.revertFailedInc = false
+		w.failedReqInc = false
+		for _, c := range w.rt.ctrs {
+			c.restarts++
+		}
 		if err := w.bootRecover(w.cfg); err != nil {
 			rep.err = err
 			return rep
